@@ -198,7 +198,7 @@ class Tree:
 
     def include_of_param(self, frm, depth, simple):
         rng = self.rng
-        simple_files = [p for p in self.files if p.startswith("ff") and "simple" in p]
+        simple_files = [p for p, l in self.files.items() if "simple" in p and l is not None]
         if simple_files and rng.random() < 0.25:
             return [self.include_line(frm, rng.choice(simple_files))]      # repeated include
         directory = rng.choice(["ff", "ff/sub", "ff/sub/deep", "common"])
@@ -639,6 +639,8 @@ def judge_tree(ctx, item, answers):
                                 "exist (%s) but the tree was read" % flat.get("err"), replay)
         else:
             follow.append(dict(kind="flat", lines=flat["lines"], abort=flat["abort"]))
+            # coverage of the theorem C08_flatten_equiv_partial: is the tree in its well-formed class?
+            ctx.tally(theorem_hypothesis_holds=flat.get("well_formed"), **({"wf_of_shape_" + shape_tag: flat.get("well_formed")} if shape_tag else {}))
     if dump is not None and case["valid"] and case.get("units"):
         # the molecule types are what the moleculetype texts say: each one read on its own by vermouth's itp
         # reader must be the block the topology reader produced
